@@ -211,6 +211,20 @@ func tagOf(f Field) string {
 	return " `" + strings.Join(parts, " ") + "`"
 }
 
+func (m *Model) hasEnv(key string) bool {
+	for _, d := range m.Env {
+		if d.Key == key {
+			return true
+		}
+	}
+	return false
+}
+
+// FarTarget tells whether the column is a foreign key to the table declared outside the analysed file.
+func FarTarget(s ColSpec) bool {
+	return s.Foreign == "HTTPOwner" || (s.TE.K == "ref" && s.TE.Key == "IdHTTPOwner")
+}
+
 // Dir / PkgName of a model.
 func Dir(id int) string { return fmt.Sprintf("s%d", id) }
 
@@ -230,6 +244,10 @@ func Render(m *Model) map[string]string {
 		default:
 			types.WriteString(renderDecl(d, false))
 		}
+	}
+	if m.hasEnv("IdHTTPOwner") {
+		// a table struct declared in another file of the package: foreign keys may point to it
+		types.WriteString("type HTTPOwner struct {\n\tId IdHTTPOwner\n\tName string\n}\n\n")
 	}
 	imports := map[string]bool{}
 	var body strings.Builder
@@ -379,6 +397,10 @@ func CrudSupported(s ColSpec) bool {
 		// delete then does depends on the firing order of the referential triggers; not a valid table struct
 		return false
 	}
+	if FarTarget(s) {
+		// the schema of the analysed file alone does not create the target table
+		return false
+	}
 	if s.TE.K == "ref" {
 		switch s.TE.Key {
 		case "sub.Pair":
@@ -454,8 +476,15 @@ func ComposeCrud(u *Universe, rng *rand.Rand, firstID int) []*Model {
 		t1.Fields = append(t1.Fields, take(2+rng.Intn(3))...)
 		refOD := ods[rng.Intn(3)]
 		refTE := basic("int64")
+		witness := len(models) == 0 // the first model file: a key that is both nullable and UNIQUE
+		if witness {
+			refOD = "SET NULL"
+		}
 		if refOD == "SET NULL" {
 			refTE = ref("sql.NullInt64")
+		}
+		if witness {
+			t1.Comments = append(t1.Comments, "gomacro:SQL ADD UNIQUE(Ref)")
 		}
 		t1.Fields = append(t1.Fields,
 			Field{Name: "Ref", Exported: true, TE: refTE, Guard: noGuard, Foreign: t0.Goname, OnDelete: refOD},
